@@ -1,3 +1,6 @@
+import Tumfl.Props.Final
+import Tumfl.Props.Format
+import Tumfl.Props.Same
 import Tumfl.Props.Parse
 import Tumfl.Props.Print
 import Tumfl.Props.C08
@@ -16,6 +19,26 @@ import Tumfl.Props.C13
 #print axioms Tumfl.Props.C02_boundary
 #print axioms Tumfl.Props.C08_comment_wf
 #print axioms Tumfl.Props.C08_comment_text
+#print axioms Tumfl.Props.C01_default_style
+#print axioms Tumfl.Props.C02_minified_style
+#print axioms Tumfl.Inst.defaultStyle_repr_ok
+#print axioms Tumfl.Inst.minifiedStyle_repr_ok
+#print axioms Tumfl.Props.C01_same_program
+#print axioms Tumfl.Props.C02_same_program_final
+#print axioms Tumfl.Props.C01_same_program_emit
+#print axioms Tumfl.Props.EmitI_eq_emit_parsed
+#print axioms Tumfl.Props.C02_same_program
+#print axioms Tumfl.Props.C02_same_program_nocomments
+#print axioms Tumfl.Props.Format_lex
+#print axioms Tumfl.Props.Format_lex_exact
+#print axioms Tumfl.Props.Format_comments
+#print axioms Tumfl.Props.Parse_numsCanon
+#print axioms Tumfl.Props.Format_cex_semicolon
+#print axioms Tumfl.Props.Format_cex_trailing_comma
+#print axioms Tumfl.Props.Same_program
+#print axioms Tumfl.Props.Same_tokens
+#print axioms Tumfl.Props.Same_normS_eq
+#print axioms Tumfl.Props.Same_normS_strength
 #print axioms Tumfl.Props.Parse_printable
 #print axioms Tumfl.Props.C10_parse_sound
 #print axioms Tumfl.Props.C03_parse_complete
